@@ -1,5 +1,7 @@
 import Iec.Lemmas.Srv104
 import Iec.Model.Cli104
+import Iec.Lemmas.Srv104Unconf
+import Iec.Lemmas.Cli104Unconf
 /-
 C11 — CS104 acknowledgement duty (w, t2) and supervision timers (t1, t3).
 
@@ -18,6 +20,8 @@ Client role (`section Client`): the same duties on the client model, which the c
 cs104_connection.c: `client_ack_after_w`, `client_t2_ack`/`client_t2_not_before`, `client_close_iff` (t1 for I-frames
 and TESTFR/STARTDT/STOPDT act: exactly when), `client_t3_testfr`, `client_ack_before_stopdt`,
 `client_ack_before_close`.
+Over every history: `fewer_than_w_unacknowledged` (server, `Lemmas/Srv104Unconf.lean`) and
+`client_fewer_than_w_unacknowledged` (`Lemmas/Cli104Unconf.lean`).
 -/
 namespace Iec.Props.C11
 open Iec.Srv104 Iec.KWindow
@@ -383,5 +387,31 @@ example : (Iec.Cli104.handleTimeouts (exC 20000)).2 = false := by decide
 example : (Iec.Cli104.handleTimeouts (exC 19999)).2 = true := by decide
 
 end Client
+
+end Iec.Props.C11
+
+/-! ### every history -/
+namespace Iec.Props.C11
+
+/-- **acknowledged no later than after w, over every history (server).** From a freshly created server with w ≥ 1, after any
+sequence of ticks (accept, reception of any messages in any segmentation, transmission, time-outs, reaping), enqueues,
+restarts and environment events, every connection has fewer than w received I-format APDUs that it has not acknowledged:
+the count grows only when an I-format APDU is accepted, by one, and the `w` test that follows every received message
+acknowledges as soon as it reaches w. -/
+theorem fewer_than_w_unacknowledged (p : Iec.Srv104.Params) (gs : List (String × List (Bool × List Nat))) (hw : 0 < p.w)
+    (ops : List Iec.Srv104.WOp) (j : Nat) :
+    ((ops.foldl Iec.Srv104.WOp.apply (Iec.Srv104.create p gs)).conn j).unconf < p.w := by
+  obtain ⟨h, hp⟩ := Iec.Srv104.run_uok p gs hw ops
+  have := h.2 j
+  rwa [hp] at this
+
+/-- **acknowledged no later than after w, over every history (client).** For a connection object created with w ≥ 1, after
+any sequence of connect / thread steps / peer and clock events / sendASDU / STARTDT / STOPDT / close, fewer than w received
+I-format APDUs are unacknowledged at every blocking point of the connection thread. -/
+theorem client_fewer_than_w_unacknowledged (p : Iec.Cli104.Params) (hw : 0 < p.w) (ops : List Iec.Cli104.KOp) :
+    (ops.foldl Iec.Cli104.KOp.apply { p := p }).unconf < p.w := by
+  obtain ⟨h, hp⟩ := Iec.Cli104.run_cuok p hw ops
+  have := h.2
+  rwa [hp] at this
 
 end Iec.Props.C11
